@@ -32,7 +32,7 @@ def load_payload(hexpayload, ver):
     return xdis.unmarshal.load_code(io.BytesIO(unhx(hexpayload)), FINAL[tuple(ver[:2])])
 
 
-def portable_with_code(ver, co_code, nconst=300, nname=300, nvar=260):
+def portable_with_code(ver, co_code, nconst=300, nname=300, nvar=260, lnotab=b"", firstlineno=1):
     """a portable code object of version `ver` with wide tables and the given co_code"""
     from xdis.codetype import to_portable
 
@@ -42,7 +42,7 @@ def portable_with_code(ver, co_code, nconst=300, nname=300, nvar=260):
         co_argcount=0, co_posonlyargcount=0, co_kwonlyargcount=0, co_nlocals=nvar, co_stacksize=10, co_flags=0,
         co_code=co_code, co_consts=tuple(range(1000, 1000 + nconst)), co_names=tuple("n%d" % i for i in range(nname)),
         co_varnames=tuple("v%d" % i for i in range(nvar)), co_filename="<raw>", co_name="raw", co_qualname="raw",
-        co_firstlineno=1, co_lnotab=b"", co_freevars=tuple("f%d" % i for i in range(4)),
+        co_firstlineno=firstlineno, co_lnotab=lnotab, co_freevars=tuple("f%d" % i for i in range(4)),
         co_cellvars=tuple("c%d" % i for i in range(4)), co_exceptiontable=b"", version_triple=ver + (0,),
     )
 
